@@ -45,9 +45,9 @@ class C12(hc.PProp):
         visits = []
         for u, url in enumerate(urls):
             t = rng.randint(0, 3)
-            for k in range(rng.randint(3, 8)):
-                N = url['N']
-                gap = rng.choice([0.2, N * 0.5, max(N - 3, 0.1), N + 3, N + 10, 2 * N + 5, N * 5 + 5])
+            N = url['N']
+            for k in range(rng.randint(3, 8) if N < 3600 else rng.randint(2, 4)):   # keeps the whole timeline inside the simulated-time limit
+                gap = rng.choice([0.2, N * 0.5, max(N - 3, 0.1), N + 3, N + 10, 2 * N + 5] + ([N * 5 + 5] if N < 3600 else []))
                 t += gap
                 d = rng.random()
                 hd = []
